@@ -282,7 +282,7 @@ theorem tc_loopStep (h : Nat) (s : St) (i : LoopInp) (hrun : s.phase ≠ .execut
     split
     · left; simp [tc]
     · left
-      have := tc_dispatchAll h i.events { s with polling := false }
+      have := tc_dispatchAll h (if i.pollErr = true then [] else i.events) { s with polling := false }
       exact ⟨this.2, by simpa [tc] using this.1⟩
   · left; exact ⟨rfl, rfl⟩
   · left; exact ⟨rfl, rfl⟩
@@ -349,7 +349,7 @@ theorem runOK_step (s : St) (a : Act) (hr : RunOK s) : RunOK (step s a) := by
       dsimp only
       split
       · simp [hn]
-      · have := (dispatchAll_frame i.events { s with polling := false }).1
+      · have := (dispatchAll_frame (if i.pollErr = true then [] else i.events) { s with polling := false }).1
         intro _
         rw [this]; exact hn
     · exact hr
